@@ -14,8 +14,8 @@ ASSUMPTIONS = [
     "fixed cells are in-memory rectangles flagged fixed holding {F: 1.0}, the way initial_allocation produces them",
     "area compared with relative 1e-9, centre with 1e-9 x (bounding box + coordinate magnitude)",
 ]
-CASES = {"quick": 5000, "thorough": 500000}
-MIN_CASES = {"quick": 1200, "thorough": 25000}
+CASES = {"quick": 15000, "thorough": 500000}
+MIN_CASES = {"quick": 3000, "thorough": 25000}
 REQUIRED_COUNTERS = ["op:refine", "op:uniform", "op:griddify", "parent_tilings_checked", "module_conservation_checked", "fixed_cells_checked",
                      "layout:vstrips", "layout:hstrips", "unequal_xy_boundaries"]
 
